@@ -375,6 +375,7 @@ impl Bits {
         let kset = if trace.cfg.seed2 & 1 == 0 { 2 } else { 1 };
         let mut kb_bits = KbAny::new(kset, DynLayout::object(0), pc_keyboard::HandleControl::Ignore);
         let mut kb_words = KbAny::new(kset, DynLayout::object(0), pc_keyboard::HandleControl::Ignore);
+        let mut queued_ev: Option<(pc_keyboard::KeyEvent, usize)> = None;
         let mut aligned = true;
         let mut any_fault = false;
         let mut faults_seen = false;
@@ -491,6 +492,16 @@ impl Bits {
                 let snapshot: Vec<bool> = if pending_before == 10 { model.bits.clone() } else { Vec::new() };
                 let model_bits_before: Vec<bool> = snapshot.clone();
                 let r = FRes::of_bit(&real.add_bit(bit));
+                // the main loop gets round to a queued event some bits into the next frame
+                if let Some((ev, lag)) = queued_ev.take() {
+                    if lag == 0 {
+                        let _ = kb_bits.process_keyevent(ev);
+                        env.cov.api_calls += 1;
+                        env.cov.probe("queued_event_processed_between_two_bits");
+                    } else {
+                        queued_ev = Some((ev, lag - 1));
+                    }
+                }
                 let rk = Res::of(&kb_bits.add_bit(bit));
                 let _ = model.add_bit(bit);
                 env.cov.api_calls += 2;
@@ -514,6 +525,17 @@ impl Bits {
                     let rw = Res::of(&kb_words.add_word(w));
                     env.cov.api_calls += 1;
                     env.cov.probe("keyboard_bit_route_vs_word_route");
+                    if let Res::Ev(k, st) = rw {
+                        // word route: the event is processed at once; bit route: a few bits later
+                        let _ = kb_words.process_keyevent(pc_keyboard::KeyEvent::new(k, st));
+                        env.cov.api_calls += 1;
+                    }
+                    if let Res::Ev(k, st) = rk {
+                        if let Some((old, _)) = queued_ev.take() {
+                            let _ = kb_bits.process_keyevent(old);
+                        }
+                        queued_ev = Some((pc_keyboard::KeyEvent::new(k, st), (w as usize + i) % 10));
+                    }
                     if rk != rw {
                         fail!(
                             'ops,
@@ -706,6 +728,7 @@ impl Scenario for Bits {
             cov.probe_declare("recovered_after_watchdog_clear");
             cov.probe_declare("add_word_on_busy_decoder");
             cov.probe_declare("keyboard_bit_route_vs_word_route");
+            cov.probe_declare("queued_event_processed_between_two_bits");
         } else {
             cov.probe_declare("single_flip_rejected");
             cov.probe_declare("double_flip_accepted_with_changed_byte");
